@@ -48,13 +48,17 @@ class Faults(object):
         raise ValueError(f)
 
 
-def conversation(sx, typ, fsci, fwi, tx_size, clens, rlens, wtx, budget, kinds, go_on=False):
+def conversation(sx, typ, fsci, fwi, tx_size, clens, rlens, wtx, budget, kinds, go_on=False,
+                 wtx_in_chain=False):
     w = worlds.T4World(sx, 0x20, 255, 255, 16, 3, typ=typ, fsci=fsci, fwi=fwi,
                        tx_size=tx_size, wtx_at=wtx, fill=0x41)
     card = w.sim
     tag = w.fresh_tag()
     if tag is None:
         sx.check(False, "activate-returned-none")
+    card.wtx_in_chain = wtx_in_chain
+    if wtx_in_chain:
+        sx.reach("wtx_during_response_chaining")
     fsc = tags_fsc(fsci)
     m = fsc - 3
     # APDUs: proprietary class 80h, data and responses symbolic
@@ -160,6 +164,9 @@ def partitions(tier):
     P.append(dict(name="A:no-retry-budget", fn="conversation",
                   params=dict(typ="A", fsci=2, fwi=14, tx_size=29, clens=["1m+1"], rlens=["1m+1"],
                               wtx=[], budget=1, kinds=kinds)))
+    P.append(dict(name="A:wtx-in-response-chain", fn="conversation",
+                  params=dict(typ="A", fsci=2, fwi=4, tx_size=29, clens=[2], rlens=["2m+1"],
+                              wtx=[], budget=1, kinds=kinds, wtx_in_chain=True)))
     # a failed exchange (retry budget 1 exhausted) followed by further APDUs
     P.append(dict(name="A:after-failure", fn="conversation",
                   params=dict(typ="A", fsci=2, fwi=11, tx_size=29, clens=[2, 3, 1], rlens=[3, 2, 1],
@@ -168,7 +175,7 @@ def partitions(tier):
 
 
 MUST_REACH = ["apdu_completed", "completed_despite_faults", "tag_command_error",
-              "command_chained", "response_chained", "wtx", "apdu_after_failed_exchange"]
+              "command_chained", "response_chained", "wtx", "apdu_after_failed_exchange", "wtx_during_response_chaining"]
 BOUNDS = {"quick": "<=2 faults per conversation out of {command lost, response lost, response garbled} at each of the first 24 blocks; FSCI 0/2/3; command/response lengths around multiples of FSC-3; 1-3 consecutive APDUs; one S(WTX); FWI 4 and 14; APDU and response bytes symbolic",
           "thorough": "<=3 faults; FSCI 0/2/3/5/8"}
 OUTSIDE = ["CID/NAD", "extended length APDUs", "more than 24 blocks per conversation", "FSD below 256"]
